@@ -549,7 +549,7 @@ def prove(hyps, qfacts, goal, extra_pool=(), timeout_ms=None, want_model=True,
             return "unsat", "cvc5", dt, None, None
         # neither solver decided it: look for a counter-model by sampling (refutes e.g. a false equality
         # between large nonlinear terms, where the solvers' model search gives up)
-        m = sample_refute(base, ground, min(timeout_ms, 10000))
+        m = sample_refute(base, ground, min(timeout_ms, 6000))
         dt = time.time() - t0
         STATS.solver_time += dt
         if m is not None:
@@ -602,7 +602,7 @@ def _model_satisfies(m, qfacts):
     return True
 
 
-def sample_refute(base, ground, timeout_ms=8000, tries=4):
+def sample_refute(base, ground, timeout_ms=8000, tries=2):
     """Counter-model search by sampling: fix random values for the uninterpreted leaf terms of the
     (negated) goal as SOFT constraints, keep every hypothesis hard, and let the solver complete the
     rest.  Returns a model of base+ground (so of hyps /\ not goal, at ground level) or None."""
